@@ -150,7 +150,7 @@ fn carrier_specs(thorough: bool) -> Vec<UniSpec> {
   v.push(UniSpec {
     full: true,
     lang: l,
-    sources: vec!["123 + 4; x = 123 + z * 2;".into(), "foo(123 + 1, 5 + 123)".into()],
+    sources: vec!["123 + 4;x = 123 + z * 2;".into(), "foo(123 + 1, 5 + 123)".into()],
     patterns: vec!["123+".into(), "$A +".into(), "123 + $B".into(), "foo(".into()],
     kinds: vec!["binary_expression".into(), "number".into(), "expression_statement".into()],
     regex: vec![vec!["123".into()]],
@@ -638,6 +638,11 @@ pub fn drive(universe_file: &str, vectors: &str, out: &str) {
         let fa = catch_unwind(AssertUnwindSafe(|| ids_of(root.find_all(&c.matcher), &p)));
         let vis = catch_unwind(AssertUnwindSafe(|| ids_of(Visitor::new(&c.matcher).reentrant(true).visit(root.clone()), &p)));
         let non = catch_unwind(AssertUnwindSafe(|| ids_of(Visitor::new(&c.matcher).reentrant(false).visit(root.clone()), &p)));
+        // the rewriting front of the overlap-free visit: one edit per outermost match (matches that merely touch included)
+        let ra = catch_unwind(AssertUnwindSafe(|| root.replace_all(&c.matcher, "X").iter().map(|e| e.position).collect::<Vec<_>>()));
+        let outer_pos = catch_unwind(AssertUnwindSafe(|| {
+          Visitor::new(&c.matcher).reentrant(false).visit(root.clone()).map(|m| m.range().start).collect::<Vec<_>>()
+        }));
         let comb = catch_unwind(AssertUnwindSafe(|| {
           let scan = CombinedScan::new(vec![c]);
           let r = scan.scan(&g, false);
@@ -653,7 +658,7 @@ pub fn drive(universe_file: &str, vectors: &str, out: &str) {
         }
         rec["cfg"] = json!({"ok": true, "hits": hits_of(&cv),
           "find_all": fa.unwrap_or(vec![0]), "visit": vis.unwrap_or(vec![0]), "visit_outer": non.unwrap_or(vec![0]),
-          "combined": comb.unwrap_or(vec![0]),
+          "combined": comb.unwrap_or(vec![0]), "ra_pos": ra.unwrap_or(vec![usize::MAX >> 40]), "outer_pos": outer_pos.unwrap_or(vec![]),
           "pk": pk_json(c.matcher.potential_kinds())});
       }
       _ => {
